@@ -171,6 +171,25 @@ end
 /-- `Policy::at_lock_time` -/
 def atLockTime (n : Nat) (p : Policy) : Policy := normalized (atLockTimeRaw n p)
 
+/-! ## `relative_timelocks`, `absolute_timelocks` -/
+
+/-- `Vec::dedup`: consecutive equal elements collapse -/
+def dedupAdj : List Nat → List Nat
+  | [] => []
+  | [x] => [x]
+  | x :: y :: rest => if x == y then dedupAdj (y :: rest) else x :: dedupAdj (y :: rest)
+
+/-- `sort_unstable(); dedup()` -/
+def sortDedup (l : List Nat) : List Nat := dedupAdj (l.mergeSort (fun a b => decide (a ≤ b)))
+
+/-- `Policy::relative_timelocks`: the `older` values in pre-order, sorted, without repetitions -/
+def relativeTimelocks (p : Policy) : List Nat :=
+  sortDedup ((atomsOf p).filterMap fun | .older t => some t | _ => none)
+
+/-- `Policy::absolute_timelocks` -/
+def absoluteTimelocks (p : Policy) : List Nat :=
+  sortDedup ((atomsOf p).filterMap fun | .after t => some t | _ => none)
+
 /-! ## key counting -/
 
 mutual
